@@ -35,6 +35,7 @@ _ASSUME_B = [
     "engine B serialises goroutines, so data races are invisible to it (only their logical consequences under serial interleavings)",
     "seeded sampling: a clean batch is evidence, not proof",
     "under the verif tag a select whose context is already done takes the context arm (a legal outcome of the real select)",
+    "a goroutine is never parked with a sync.Mutex/RWMutex of the code under test held (hand-placed hooks by rule, inserted ones are left out of lock regions), with the exception of Executor.dirty, whose waiters the scheduler keeps away by probing the real lock; a goroutine that nevertheless waits for ever on such a lock is reported as blocked-on-lock-forever",
 ]
 
 PROPS = {
@@ -90,12 +91,13 @@ PROPS = {
         thorough_timeout=7200,
         rule="a case = valid generated workload x per-file input form (source / AST / parser.Result / unlinked FileDescriptorProto) for "
              "one or two concurrent Compile clients sharing the same supplied objects x SourceInfoMode in {none, standard, extra "
-             "comments, +option locations} x MaxParallelism x scheduler tape; distinct = distinct (workload, forms, trace hash); "
+             "comments, +option locations} x supplied protos with or without source code info x MaxParallelism x scheduler tape; distinct = distinct (workload, forms, trace hash); "
              "non-trivial = at least one file is supplied in a non-source form. Part TestC09R is NOT simulated: 2-3 real, unscheduled concurrent "
              "Compile calls (different SourceInfoModes) share the same supplied objects (protos carrying source info) under the race "
              "detector, whose happens-before analysis reports an unsynchronised write to a shared input however the goroutines interleave",
         assumptions=_ASSUME_B + ["the race-detector part controls no schedule; it is a supplementary oracle for 'can be reused across concurrent compilations' that engine B cannot observe",
-                                 "source info is compared only for files whose supplied form carries an AST",
+                                 "source info is compared only for files whose supplied form carries an AST, except that with SourceInfoNone every form must come out without any",
+                                 "a failing all-source reference compile of a workload meant to be valid is a violation (form-changes-outcome) if the same files compile as unlinked descriptor protos, a generator fault (exit 2) otherwise",
                                  "mutation of supplied objects is decided by before/after deterministic encodings (ASTs are not snapshotted)"],
     ),
     "C33": dict(
@@ -128,7 +130,7 @@ PROPS = {
              "{add a type, change a field type, rename a message, add an import (maybe unused/cyclic/missing), drop an import, break/"
              "repair syntax, add a file, delete a file, re-add a deleted file, toggle a transient open error, touch} each followed by "
              "evicting the changed paths' File queries and re-running queries.FDS on the long-lived executor (parallelism 1-4) under a "
-             "seeded schedule; one case in five adds a 'hub' shape (a workspace file importing 2-3 files that are not in the workspace and extend the same message with numbers from a pool of two); "
+             "seeded schedule; one case in four applies the edits inside EvictWithCleanup's cleanup while a second client compiles 1-4 times on the same executor (each result must be the batch result of a file state that existed while it ran; the editor may stall inside the cleanup); one case in five adds a 'hub' shape (a workspace file importing 2-3 files that are not in the workspace and extend the same message with numbers from a pool of two); "
              "seeded schedule; oracle = brand-new executor and ir.Session on the same files after each step; distinct = distinct "
              "(workspace, history, trace hash); non-trivial = more than one step or a step whose batch result has diagnostics",
         assumptions=_ASSUME_B + ["diagnostics are compared as a multiset of individually rendered diagnostics; an order-only difference is reported under its own class"],
@@ -138,7 +140,7 @@ PROPS = {
         selftest_may_diverge="the outcome of cases whose workspace has an import cycle is itself nondeterministic in the code under test (known finding C36/diagnostics-differ-with-import-cycle), so such a case may stop after a different number of runs; the schedule of each individual run is reproducible",
         quick_checks=400, thorough_checks=6000, thorough_timeout=10800,
         rule="a case = generated invalid workspace (0-12 reportable errors, warnings; one case in four with a 'hub' shape: a workspace file importing 2-3 import-only files whose extension numbers may clash) x 2-4 runs of queries.FDS on brand-new or warm "
-             "executors with parallelism 1-4 under a seeded schedule (each fresh executor has fresh sync.Map hash seeds), compared with "
+             "executors with parallelism 1-4 under a seeded schedule, in one case of four with a second client that compiles the same workspace 1-3 times on the same executor at the same time and may evict (unchanged) files before each of its runs (each fresh executor has fresh sync.Map hash seeds), compared with "
              "an unsimulated run; plus Report.Canonicalize applied to 3 seeded permutations of (a) the real diagnostics and (b) a "
              "synthetic list of 0-7 diagnostics drawn from small pools (ties, tagged duplicates, span-less diagnostics); distinct = "
              "distinct (workspace, runs, synthetic list, trace hash); non-trivial = the reference report has at least 2 diagnostics",
